@@ -71,7 +71,9 @@ def gen_design(r, cfg):
             if r.random() < 0.3:
                 m["params"][ident(r, set(), 0.0)] = r.choice(["8'h0F", "3", '"str"'])
             if r.random() < 0.3:
-                m["attrs"][r.choice(["keep", "dont_touch", "mark"])] = r.choice([None, '"true"', "1"])
+                # one attribute list  (* k1 = v, k2, k3 = w *)  with 1-3 keys, valued and value-less in any order
+                for k_ in r.sample(["keep", "dont_touch", "mark", "src"], r.choice([1, 1, 2, 3])):
+                    m["attrs"][k_] = r.choice([None, '"true"', "1"])
             # instances of lower-level modules and primitives
             lower = [x for row2 in levels for x in row2]
             targets = [("mod", x) for x in lower] + [("prim", p) for p in prims]
@@ -89,7 +91,8 @@ def gen_design(r, cfg):
                 if r.random() < 0.3:
                     inst["params"][r.choice(["INIT", "WIDTH", "MODE"])] = r.choice(["16'hEC80", "4", '"fast"'])
                 if r.random() < 0.2:
-                    inst["attrs"][r.choice(["keep", "loc"])] = r.choice([None, '"X1Y2"'])
+                    for k_ in r.sample(["keep", "loc", "dont_touch"], r.choice([1, 1, 2, 3])):
+                        inst["attrs"][k_] = r.choice([None, '"X1Y2"', "1"])
                 ports = t["ports"]
                 if inst["positional"]:
                     # a prefix of the ports, each with an expression (an empty positional slot is not generated)
